@@ -504,3 +504,27 @@ def c15_history(pi, ops):
         return False, 'same as the fresh-interpreter baseline'
     diff = [(i, x, y) for i, (x, y) in enumerate(zip(got, base)) if x != y]
     return True, f'probe #{pi} after {ops}: {str(diff)[:900]}'
+
+
+# ------------------------------------------------------------------ C02
+@replay('c02_tiling')
+def c02_tiling(chain, dmin, dmax, qd, bh):
+    import warnings
+    import pytrs
+    from spec import aliquot_spec as A
+    text = A.canonical_text(chain)
+    cfg = [f'qq_depth_min.{dmin}']
+    if dmax is not None:
+        cfg.append(f'qq_depth_max.{dmax}')
+    if qd is not None:
+        cfg.append(f'qq_depth.{qd}')
+    if bh:
+        cfg.append('break_halves')
+    with warnings.catch_warnings():
+        warnings.simplefilter('ignore')
+        t = pytrs.Tract(text, parse_qq=True, config=','.join(cfg))
+    if qd is not None:
+        dmin = dmax = qd
+    pieces = t.qqs
+    why = A.check_tiling(chain, list(pieces), dmin, dmax, bh)
+    return why is not None, f'{text!r} config {cfg}: pieces {pieces}: {why}'
